@@ -236,7 +236,11 @@ func createPromise(tags map[string]string, promiseCmd *t_aio.CreatePromiseComman
 		})
 
 		if err != nil {
-			slog.Warn("failed to match promise", "cmd", promiseCmd, "err", err)
+			// If the router could not be consulted we do not know whether the promise
+			// must be created together with a task; creating it without one would leave
+			// a routed promise that is never invoked, so fail the request instead.
+			slog.Error("failed to match promise", "cmd", promiseCmd, "err", err)
+			return nil, t_api.NewError(t_api.StatusAIOMatchError, err)
 		}
 
 		if taskCmd != nil && (err != nil || !completion.Router.Matched) {
